@@ -18,7 +18,7 @@ BRIDGES = {
     "C10": ["Barril.Bridge.Ops", "Barril.Bridge.AlgL"],
     "C11": ["Barril.Bridge.Fixed", "Barril.Bridge.Curve", "Barril.Bridge.Fixed2"],
     "C12": ["Barril.Bridge.Valid", "Barril.Bridge.Array"],
-    "C14": ["Barril.Bridge.Reg"],
+    "C14": ["Barril.Bridge.Reg", "Barril.Bridge.Cat"],
     "C15": ["Barril.Bridge.Ccu"],
     "C16": ["Barril.Bridge.Info"],
     "C17": ["Barril.Bridge.Mgr", "Barril.Bridge.Mgr2"],
@@ -43,6 +43,7 @@ GENERATED_FROM = {
     "Barril.Bridge.Qeq": ["barril/units/_quantity.py:Quantity.__eq__", "barril/units/_quantity.py:Quantity.__hash__",
                           "barril/units/_quantity.py:Quantity.__reduce__", "barril/units/_quantity.py:_ObtainReduced"],
     "Barril.Bridge.AlgL": ["barril/units/unit_database.py:UnitDatabase._ConvertMatchingExp"],
+    "Barril.Bridge.Cat": ["barril/units/unit_database.py:UnitDatabase.AddCategory"],
     "Barril.Bridge.Valid": ["barril/units/_quantity.py:Quantity.CheckValue"],
     "Barril.Bridge.Conv": ["barril/units/unit_database.py:UnitDatabase.Convert"],
     "Barril.Bridge.Info": ["barril/units/unit_database.py:UnitDatabase.GetInfo",
